@@ -12,10 +12,11 @@
     update a module's parameters (via = 0 message of the authority, 1 message of anybody else,
     2 InitGenesis) and operations of the five modules, which read the STORED sets.
 
-    What is still refuted (known finding, not repaired): a pool-creation / issue fee AMOUNT of 2^255.2
-    or more passes validation and overflows the 315-bit LegacyDec in the fee split, so the handler
-    panics.  The [_partial] theorems carry the hypothesis [*_small] (amount < 2^255) and the [_refuted]
-    theorems show that it cannot be dropped. *)
+    What is still refuted (known findings, not repaired; message handlers only): a pool-creation /
+    issue fee AMOUNT of 2^255.2 or more passes validation and overflows the 315-bit LegacyDec in the fee
+    split (coinswap, farm, token), and an htlc asset whose fixed fee + minimum swap amount reach 2^256
+    overflows the Int addition in CreateHTLC; the handler panics.  The [_partial] theorems carry the
+    hypothesis [*_small] and the [_refuted] theorems show that it cannot be dropped. *)
 From Irismod Require Import Params.Model Params.Check Params.Proofs.
 
 (** ** Only the authority updates *)
@@ -74,12 +75,19 @@ Print Assumptions stored_params_stay_valid.
 (** ** A validated set never makes a handler or a blocker abort (per module) *)
 
 (** htlc: begin blocker (time-based supply limits), CreateHTLC (incoming / outgoing asset transfer),
-    ClaimHTLC of an incoming transfer -- in every state ([supply], balances arbitrary). *)
-Theorem htlc_validated_params_never_abort :
+    ClaimHTLC of an incoming transfer -- in every state ([supply], balances arbitrary).
+    Refuted by the same family of extreme magnitudes: [FixedFee.Add(MinSwapAmount)] overflows the
+    256-bit Int when the two validated amounts add up to 2^256 or more. *)
+Theorem htlc_validated_params_never_abort_refuted :
+  exists (p : ht_params) (o : ht_op) (w : Z), validate_ht p = Ok /\ ht_path p o = Some (Panic w).
+Proof. exists ht_big, (HtCreate 10 72339 1 2 61 (Some (0, 0, 0, 0)) 100000), 318. exact ht_refuted. Qed.
+Print Assumptions htlc_validated_params_never_abort_refuted.
+
+Theorem htlc_validated_params_never_abort_partial :
   forall (p : ht_params) (o : ht_op) (r : res),
-    validate_ht p = Ok -> ht_path p o = Some r -> res_outcome r <> Abort.
+    validate_ht p = Ok -> ht_small p -> ht_path p o = Some r -> res_outcome r <> Abort.
 Proof. exact ht_no_panic. Qed.
-Print Assumptions htlc_validated_params_never_abort.
+Print Assumptions htlc_validated_params_never_abort_partial.
 
 (** service: BindService (minimum deposit), CallService (timeout), RespondService (fee tax) and the
     end blocker's slashing of expired requests, for non-negative prices and amounts below 2^255. *)
@@ -165,17 +173,23 @@ Proof. cbv zeta. repeat split; vm_compute; try reflexivity; discriminate. Qed.
 
 Example c16_nonvacuous_htlc :
   let a := mkAsset 10 (Some 1000) true 3600 (Some 1000) true 2 (Some 0) (Some 1) (Some 1000) 50 34560 in
-  validate_ht [a] = Ok
+  validate_ht [a] = Ok /\ ht_small [a]
   /\ ht_path [a] (HtCreate 10 1000 2 1 50 (Some (0, 0, 0, 0)) 0) = Some Done
   /\ ht_path [a] (HtCreate 10 1000 2 1 50 (Some (0, 0, 1, 0)) 0) = Some Reject
   /\ ht_path [a] HtBegin = Some Done.
-Proof. cbv zeta. repeat split; vm_compute; reflexivity. Qed.
+Proof.
+  cbv zeta. split; [vm_compute; reflexivity|]. split; [|repeat split; vm_compute; reflexivity].
+  repeat apply Forall_cons; try apply Forall_nil. vm_compute. reflexivity.
+Qed.
 
 Example c16_nonvacuous_service :
   let p := mkSv 1 1 [] (Some 999999999999999999) (Some 1000000000000000000) 1 1 1 1 true in
   validate_sv p = Ok /\ sv_op_wf (SvBlocks [5000; 1])
   /\ sv_path p (SvBlocks [5000; 1]) = Some Done /\ sv_path p (SvRespond 100 100) = Some Done.
-Proof. cbv zeta. repeat split; try (vm_compute; reflexivity); repeat constructor; vm_compute; congruence. Qed.
+Proof.
+  cbv zeta. split; [vm_compute; reflexivity|]. split; [|split; vm_compute; reflexivity].
+  simpl. repeat apply Forall_cons; try apply Forall_nil; (split; [vm_compute; discriminate|vm_compute; reflexivity]).
+Qed.
 
 Example c16_nonvacuous_farm_token :
   let f := mkFm (mkCoin 1 (Some 0)) 0 (Some 999999999999999999) in
@@ -198,5 +212,5 @@ Example c16_nonvacuous_history :
   /\ ps_fm (run ps_init h) = fm_defaults.
 Proof.
   cbv zeta. split; [|repeat split; vm_compute; reflexivity].
-  repeat constructor; vm_compute; try reflexivity; discriminate.
+  simpl. repeat apply Forall_cons; try apply Forall_nil; vm_compute; try reflexivity; try exact I; discriminate.
 Qed.
